@@ -98,3 +98,25 @@ Section Listed.
     exact (Hdistinct k Hk Hkn).
   Qed.
 End Listed.
+
+(* ---- a listed step whose command is empty ----------------------------------------------------------
+   Resolution (resolve_step_command) still yields the empty vector for a canvas step whose command elements all
+   interpolate to nothing (SchedShadow / C10_listed_command_nonempty_refuted): the NAME is resolvable.  What the
+   runner does with it is C06's [step_exec_run]: with the test of /repo 8e76449 it refuses - "empty step command",
+   the status of Gen_Exec.empty_exit, nothing forked - for every kernel function, signal and handshake.  Only the
+   modes without pattern keywords can have such a step at all (script commands start with sh:
+   C10_listed_command_nonempty_partial), and for those the runner on the text IS the runner on [view_of]. *)
+From Robsd Require Import Exec.ArgvRun.
+
+Theorem listed_empty_command_refused E m text c tr name xs kern g hs :
+  empty_command_checked = true ->
+  m <> ROBSD_REGRESS -> config_parse E (tables_of m) text = Accepted c ->
+  let c' := after_parse (tables_of m) c in
+  benv E m c' tr TRACE <> None ->
+  SchedDefs.resolve E (tables_of m) text tr name = Some [] ->
+  step_exec_run empty_command_checked true (view_of E m c' tr xs) tr name kern g hs
+    = Exited (mkrun None empty_exit [DEmptyCmd]).
+Proof.
+  intros Hck Hm Hp c' Htr Hr. rewrite Hck.
+  apply empty_command_refused. now apply (bridge_view E m text c tr name [] xs Hm Hp Htr).
+Qed.
